@@ -9,7 +9,11 @@ Line-protocol driver of C06 (`cola.linalg.inv` / `solve`).  One JSON case per in
   the CODE model (`Inv.invRule` instantiated with exact Gaussian-rational factorisations / solver):
   kind tree, shape, dtype, `to_dense`, `B @ x`, `xl @ B`, `B.T.to_dense()`, and the SPEC (the exact
   inverse of `den A` by Gauss–Jordan elimination, checked by multiplication in the driver);
-* `{"id", "call":"auto", "psd": bool, "rows", "cols"}` → the Auto decision table.
+* `{"id", "call":"auto", "psd": bool, "rows", "cols"}` → the Auto decision table;
+* `{"id", "call":"skel", "alg", "op": expr}` → rule selection only (`Inv.invRule` with a parameter set
+  whose factorisations / solver compute nothing): kind tree, shape, dtype of the result or the
+  predicted error.  Used by the float-side stream of c06.py (n up to 200, payloads omitted: the
+  selection does not read them).
 Run with `lake env lean --run DriverC06.lean < cases.jsonl`.
 -/
 
@@ -114,6 +118,11 @@ def solveExact (_ : Alg) (A : Op GRat) (b : Nat) (X : MatF GRat) : MatV GRat :=
   | none => MatV.of zeroM
 
 def EX : Ext GRat := { recip := GRat.inv, chol := cholExact, lu := luExact, solve := solveExact }
+
+/-- structure-only parameters (`"call":"skel"`): no factorisation, no solve -/
+def SK : Ext GRat :=
+  { recip := fun x => x, chol := fun _ _ => MatV.of zeroM, lu := fun n _ => (List.range n, MatV.of zeroM, MatV.of zeroM),
+    solve := fun _ _ _ _ => MatV.of zeroM }
 
 /-! ## which operands reach the iterative nodes (the two GMRES clauses) -/
 
@@ -230,9 +239,15 @@ def handle (j : Json) : E String := do
     let r ← jNat ((j.getObjVal? "rows").toOption.getD .null)
     let c ← jNat ((j.getObjVal? "cols").toOption.getD .null)
     return "{\"id\":" ++ id.compress ++ ",\"alg\":\"" ++ (autoChoice psd (r * c)).toString ++ "\"}"
-  if call != "inv" then throw s!"unknown call {call}"
+  if call != "inv" && call != "skel" then throw s!"unknown call {call}"
   let A ← jOp ((j.getObjVal? "op").toOption.getD .null)
   let alg ← parseAlg (← jStr ((j.getObjVal? "alg").toOption.getD .null))
+  if call == "skel" then
+    let hd := s!"\"id\":{id.compress},\"rows\":{A.rows},\"cols\":{A.cols},\"lapack\":{usesLapack alg A A}"
+    match invRule SK alg A with
+    | .error e => return ("{" ++ hd ++ ",\"code\":{\"err\":\"" ++ e ++ "\"}}")
+    | .ok B =>
+      return ("{" ++ hd ++ s!",\"code\":\{\"rows\":{B.rows},\"cols\":{B.cols},\"dtype\":\"{B.dtype.toString}\",\"skel\":{invSkel B},\"direct\":{B.direct}}}")
   let n := A.rows
   let pre := s!"\"id\":{id.compress},{header A},\"struct\":{hasStructRule A},\"lapack\":{usesLapack alg A A}"
   let xm ← jMat ((j.getObjVal? "x").toOption.getD (.arr #[]))
